@@ -1,6 +1,7 @@
 """C03 - rule expressions are confined: no code execution, I/O or introspection."""
 import ast
 import time
+from engine.ob import REPO_SRC  # noqa: E402
 from engine.ob import Obligation, post, reset_tally_caches, inject
 
 LEVEL = 'other'
@@ -214,7 +215,7 @@ def node_classes_covered():
     class Q:
         def query(self):
             import sys
-            sys.path.insert(0, '/repo/src')
+            sys.path.insert(0, REPO_SRC)
             from tally import expr_parser
             classes = [c for c in vars(ast).values() if isinstance(c, type) and issubclass(c, (ast.expr, ast.operator, ast.unaryop, ast.cmpop, ast.boolop, ast.expr_context, ast.comprehension, ast.keyword, ast.slice if hasattr(ast, 'slice') else ast.expr))]
             allowed = set(expr_parser.ALLOWED_NODES)
@@ -290,7 +291,7 @@ def sweep():
             import builtins
             import sys
             from datetime import date
-            sys.path.insert(0, '/repo/src')
+            sys.path.insert(0, REPO_SRC)
             t0 = time.time()
             names = set(dir(builtins)) | {'__builtins__', '__import__', 'os', 'sys', 'self', 'ctx', 'ast', 're', 'expr_parser'}
             attr_names = set()
@@ -328,7 +329,7 @@ def sweep():
 
         def __call__(self, case):
             import sys
-            sys.path.insert(0, '/repo/src')
+            sys.path.insert(0, REPO_SRC)
             if case['kind'] == 'name':
                 nm = case['name']
                 rs = [_run(ast.Name(id=nm, ctx=ast.Load()), case['which']),
